@@ -637,8 +637,10 @@ impl Rewriter {
       mir::Type::Int32 | mir::Type::Int31 => false,
       mir::Type::Id(type_id) => {
         let Some(type_def) = self.specialized_type_definitions.get(type_id) else {
-          // Recursive type currently being processed - must be heap-allocated (pointer).
-          return self.specialized_type_definition_names.contains(type_id);
+          // The type is still being processed (a recursive reference), so its variants are not known
+          // yet: it may turn out to have tag-only or unboxed variants, e.g. `class Nat(Z, S(Nat))`,
+          // whose values must stay distinguishable from `S` of them. Stay boxed.
+          return false;
         };
         match &type_def.mappings {
           // Structs are always pointers.
